@@ -428,6 +428,44 @@ class Body:
                     out.append((n, s))
         return out
 
+    def exhaustion_exit(self, h):
+        """exit edge (src, tgt) taken when the loop's own test fails (iterator exhausted / while condition false):
+        the exit whose source is the first branching block reached from the header in a straight line. None for
+        `loop {}` (all exits are breaks)."""
+        body = self.loops()[h]
+        n = h
+        seen = set()
+        while n not in seen:
+            seen.add(n)
+            ss = [x for x in self._succ[n]]
+            real = [x for x in ss if not (self.blocks[x]["term"]["k"] == "unreachable" and not self.blocks[x]["stmts"])]
+            if len(real) > 1:
+                outs = [x for x in real if x not in body]
+                if len(outs) == 1:
+                    return (n, outs[0])
+                return None
+            if len(real) != 1 or real[0] not in body:
+                return None
+            n = real[0]
+        return None
+
+    def after_loop_region(self, h):
+        """blocks outside loop h that are reachable from its exhaustion exit (bounded by enclosing loop headers);
+        blocks outside the loop and outside this region that are reachable from other exits are *break arms*."""
+        if not hasattr(self, "_after"):
+            self._after = {}
+        if h not in self._after:
+            ex = self.exhaustion_exit(h)
+            if ex is None:
+                self._after[h] = set()
+            else:
+                enclosing = [hh for hh, blks in self.loops().items() if hh != h and h in blks]
+                self._after[h] = self.reach(ex[1], stop=enclosing) - set(self.loops()[h])
+        return self._after[h]
+
+    def is_break_arm(self, h, blk):
+        return blk not in self.loops()[h] and blk not in self.after_loop_region(h) and bool(self.after_loop_region(h))
+
     def loop_assigned_locals(self, h):
         body = self.loops()[h]
         ls = set()
@@ -662,6 +700,31 @@ class Evaluator:
             return T("array", ops)
         return T("rv?", rv.get("dbg", "")[:40])
 
+    def _any_as_membership(self, it, clos):
+        """xs.iter().any(|x| x == k)  ==  k in xs"""
+        facts = self.body.facts
+        if facts is None or clos[1] not in facts.bodies:
+            return None
+        if not (isinstance(it, tuple) and it and it[0] == "iter"):
+            return None
+        cb = _closure_body(facts, clos[1])
+        try:
+            ps = [p for p in Walker(cb, max_paths=50).walk(0) if p.outcome[0] == "return"]
+        except TooManyPaths:
+            return None
+        if len(ps) != 1 or any(e.kind == "guard" for e in ps[0].events):
+            return None
+        r = subst(ps[0].outcome[1], closure_upvar_map(cb, clos))
+        if not (isinstance(r, tuple) and r and r[0] == "eq"):
+            return None
+        x = T("param", 2, cb.dbg.get(2, ""))
+        a, b = strip(r[1]), strip(r[2])
+        if a == x and not mentions(b, x):
+            return T("in", b, strip(it[1]))
+        if b == x and not mentions(a, x):
+            return T("in", a, strip(it[1]))
+        return None
+
     def call_term(self, t, blk):
         name = norm_callee(t)
         args = tuple(self.operand(a) for a in t["args"])
@@ -675,6 +738,10 @@ class Evaluator:
             return T("clone", args[0])
         if m == "contains" and len(args) == 2 and (is_slice_method(name, "contains") or "Vec" in name or "HashSet" in name or "BTreeSet" in name):
             return T("in", strip(args[1]), strip(args[0]))
+        if m == "any" and len(args) == 2 and "Iterator" in name and isinstance(args[1], tuple) and args[1] and args[1][0] == "closure":
+            r = self._any_as_membership(args[0], args[1])
+            if r is not None:
+                return r
         if m == "eq" and len(args) == 2 and "PartialEq" in name:
             return mk_eq(args[0], args[1])
         if m == "ne" and len(args) == 2 and "PartialEq" in name:
@@ -708,6 +775,16 @@ class Evaluator:
         if m == "from" and len(args) == 1 and name.startswith("<T as std::convert::From<T>>"):
             return args[0]
         return T("call", name, args, blk)
+
+
+_CLOSURE_BODIES = {}
+
+
+def _closure_body(facts, path):
+    key = (id(facts), path)
+    if key not in _CLOSURE_BODIES:
+        _CLOSURE_BODIES[key] = Body(facts.bodies[path], facts)
+    return _CLOSURE_BODIES[key]
 
 
 # --------------------------------------------------------------------------
@@ -780,7 +857,7 @@ class Walker:
         self.body = body
         self.max_paths = max_paths
 
-    def walk(self, start=0, stops=(), env=None, enter_loops=False, start_is_header=None, plain_headers=()):
+    def walk(self, start=0, stops=(), env=None, enter_loops=False, start_is_header=None, plain_headers=(), stop_after_loop=False):
         body = self.body
         loops = body.loops()
         if start_is_header is None:
@@ -788,6 +865,9 @@ class Walker:
         self.results = []
         self.stops = set(stops)
         self.plain = set(plain_headers)
+        self.after = set()
+        if stop_after_loop and start_is_header is not False and start in loops:
+            self.after = body.after_loop_region(start)
         self.start = start
         self.start_is_header = start_is_header
         env0 = dict(env or {})
@@ -832,6 +912,9 @@ class Walker:
                     return
                 if n in self.stops:
                     self._finish(events, ("stop", n), ev, blocks)
+                    return
+                if n in self.after:
+                    self._finish(events, ("after-loop", n), ev, blocks)
                     return
                 if n in self.plain:
                     if n in blocks[:-1]:
@@ -1136,6 +1219,11 @@ def walk_function(body, **kw):
 
 def walk_loop_body(body, header, **kw):
     return Walker(body).walk(header, start_is_header=True, **kw)
+
+
+def walk_loop_only(body, header, **kw):
+    """the loop body and its break arms, up to the point where control rejoins the code after the loop"""
+    return Walker(body).walk(header, start_is_header=True, stop_after_loop=True, **kw)
 
 
 # --------------------------------------------------------------------------
